@@ -152,73 +152,65 @@ def slot_switch_rules(prog, run, rid):
     if len(slots) < 11:
         raise AnalysisBroken("found only %d function-pointer slots in %s" % (len(slots), PLUGIN))
     # ---------------- R1 --------------------------------------------------
+    # every switch function folded on a model of the slots (each holding a marker): afterwards every slot holds a function of the
+    # program - whatever helpers do the assignments, and in whatever order
+    def by_qn(qn):
+        fs_ = [g for g in prog.functions.values() if g.qn == qn]
+        return fs_[0].mn if len(fs_) == 1 else None
+
+    def fold_switch(f, env):
+        ev = Evaluator(prog, f, env=dict(env))
+        ev.inline = {q_ for q_ in SWITCHES.values()} - {f.qn}
+        try:
+            ev.run_blocks(f.entry, max_steps=2000)
+        except Unknown as u:
+            raise AnalysisBroken("%s.%s: %s cannot be folded on the slot model: %s" % (run.pid, rid, f.qn, u))
+        return ev.env
     stored = {}
     for kind, qn in SWITCHES.items():
         f = prog.fn(qn)
         run.analysed(f)
-        paths = enumerate_paths(f)
+        env = {s_: ("fn", "marker_" + s_) for s_ in slots + saved}
+        after = fold_switch(f, env)
         stored[kind] = {}
         for s in slots:
-            ok = True
-            why = ""
-            tgt = None
-            for p in paths:
-                asg = [(l, r) for (l, r, n) in assignments(f, p) if l == s]
-                if len(asg) != 1:
-                    ok = False
-                    why = "slot assigned %d times on path [%s]" % (len(asg), p.describe(f))
-                    break
-                t = fnref(f, asg[0][1])
-                if t is None:
-                    ok = False
-                    why = "slot not assigned a function designator: %s" % render(f, asg[0][1])
-                    break
-                if tgt is not None and tgt != t:
-                    ok = False
-                    why = "different functions stored on different paths"
-                tgt = t
+            v = after.get(s)
+            tgt = by_qn(v[1]) if isinstance(v, tuple) and v[0] == "fn" else None
+            ok = tgt is not None
             stored[kind][s] = tgt
-            run.ob(rid, "%s assigns %s" % (kind, s), f.site, ok, witness=(prog.functions[tgt].qn if tgt in prog.functions else tgt), what=why)
+            run.ob(rid, "%s assigns %s (folded)" % (kind, s), f.site, ok, witness=(prog.functions[tgt].qn if tgt in prog.functions else str(v)),
+                   what="" if ok else "after %s the slot holds %s, not a function of the program" % (kind, v))
+        touched = [s_ for s_ in saved if after.get(s_) != env[s_]]
+        if touched:
+            run.ob(rid, "%s leaves the saved slots alone" % kind, f.site, False, witness=touched)
     fs, fr = prog.fn(SAVE), prog.fn(RESTORE)
     run.analysed(fs)
     run.analysed(fr)
-    ps = [p for p in enumerate_paths(fs) if assignments(fs, p)]
-    pr = [p for p in enumerate_paths(fr) if assignments(fr, p)]
-    # restore: X = saved ; save: saved = X  (on every path that assigns any slot)
+    # save / restore folded on the same model plus the nesting counter: the outermost save copies every slot into a saved slot of its
+    # own and switches the overloads off; the matching restore copies every one back; nested pairs only count
+    env0 = {s_: ("fn", "cur_" + s_) for s_ in slots}
+    env0.update({s_: ("fn", "stale_" + s_) for s_ in saved})
+    a1 = fold_switch(fs, dict(env0, save_counter=0))
+    pairing = {}
     for s in slots:
-        sv_r = set()
-        ok = bool(pr)
-        why = ""
-        for p in pr:
-            a = [render(fr, r) for (l, r, n) in assignments(fr, p) if l == s]
-            if len(a) != 1:
-                ok = False
-                why = "restore assigns %s %d times on path [%s]" % (s, len(a), p.describe(fr))
-            else:
-                sv_r.add(a[0])
-        if ok and len(sv_r) != 1:
-            ok = False
-            why = "restore reads different sources"
-        src = list(sv_r)[0] if len(sv_r) == 1 else None
-        if ok and (src not in saved):
-            ok = False
-            why = "restore source %s is not a dedicated saved_* slot" % src
-        run.ob(rid, "restore assigns %s" % s, fr.site, ok, witness=src, what=why)
-        ok2 = bool(ps) and src is not None
-        why2 = "" if ok2 else "no saved slot known"
-        if ok2:
-            for p in ps:
-                a = [render(fs, r) for (l, r, n) in assignments(fs, p) if l == src]
-                if a != [s]:
-                    ok2 = False
-                    why2 = "save does not store %s into %s exactly once on path [%s] (found %s)" % (s, src, p.describe(fs), a)
-        run.ob(rid, "save stores %s" % s, fs.site, ok2, witness=src, what=why2)
-    # save ends by switching off; distinct saved slot per slot
-    offq = SWITCHES["off"]
-    for p in ps:
-        names = [call_name(prog, fs, c) for c in path_calls(prog, fs, p)]
-        run.ob(rid, "save switches the overloads off after saving", fs.site, names.count(offq) == 1, witness=p.describe(fs),
-               what="" if names.count(offq) == 1 else "turnOff called %d times" % names.count(offq))
+        holders = [v_ for v_ in saved if a1.get(v_) == env0[s]]
+        ok = len(holders) == 1
+        pairing[s] = holders[0] if ok else None
+        run.ob(rid, "save stores %s (folded)" % s, fs.site, ok, witness=holders, what="" if ok else "after the outermost save the value of %s is held by %s saved slots" % (s, len(holders)))
+    off_ok = all(isinstance(a1.get(s), tuple) and by_qn(a1[s][1]) == stored["off"].get(s) for s in slots) and a1.get("save_counter") == 1
+    run.ob(rid, "save switches the overloads off after saving and counts the nesting", fs.site, off_ok, witness={"counter": a1.get("save_counter")},
+           what="" if off_ok else "after the outermost save the slots hold %s" % {s: str(a1.get(s)) for s in slots if not (isinstance(a1.get(s), tuple) and by_qn(a1[s][1]) == stored["off"].get(s))})
+    a2 = fold_switch(fs, dict(a1))
+    nested_ok = all(a2.get(k_) == a1.get(k_) for k_ in slots + saved) and a2.get("save_counter") == 2
+    run.ob(rid, "a nested save only counts", fs.site, nested_ok, witness={"counter": a2.get("save_counter")})
+    a3 = fold_switch(fr, dict(a2))
+    nested_ok = all(a3.get(k_) == a2.get(k_) for k_ in slots + saved) and a3.get("save_counter") == 1
+    run.ob(rid, "a nested restore only counts", fr.site, nested_ok, witness={"counter": a3.get("save_counter")})
+    a4 = fold_switch(fr, dict(a3))
+    for s in slots:
+        ok = a4.get(s) == env0[s]
+        run.ob(rid, "restore assigns %s (folded)" % s, fr.site, ok and a4.get("save_counter") == 0, witness=str(a4.get(s)),
+               what="" if ok else "after the outermost restore %s holds %s, before the save it held %s" % (s, a4.get(s), env0[s]))
 
     return slots, saved, stored
 
